@@ -483,7 +483,7 @@ contract(F, 'TableValidator._valid_date', tier='A', props=[], kind='assumed',
 
 contract(F, 'TableValidator._valid_format', tier='P', props=['C15'],
     types={'self': 'Obj:TableValidator', 'table_json': 'JSON'}, returns='Str',
-    ensures=["implies(result == '', jhas(table_json, 'format'))"], raises=ANY_EXC, modifies=[])
+    ensures=["implies(result == '', jhas(table_json, 'format') and is_jstr(table_json['format']))"], raises=ANY_EXC, modifies=[])
 
 contract(F, 'TableValidator._valid_format_url', tier='P', props=['C15'],
     types={'self': 'Obj:TableValidator', 'table': 'JSON'}, returns='Str',
